@@ -57,14 +57,17 @@ def directed(g):
     W = 6.0
     n = r.randint(4, 12)
     k = r.random()
-    if k < 0.3:
-        # footnote AND source rendered as table rows on every page, explicit header: every reservation is in play
+    if k < 0.4:
+        # footnote AND source rendered as table rows under every placement combination, explicit header: every reservation is in play
+        nrow = r.randint(4, 8)
+        n = max(1, nrow - 3 + r.randint(0, 3)) if r.random() < 0.6 else r.randint(2, 14)   # often right at the page capacity
         rows = [[f"#{i}#", r.choice(["a", "b", ""])] for i in range(n)]
         return {"df": {"cols": ["id", "c0"], "rows": rows}, "body": {},
-                "page": {"nrow": r.randint(4, 8), "col_width": W, "page_footnote": "all", "page_source": "all"},
+                "page": {"nrow": nrow, "col_width": W, "page_footnote": r.choice(["first", "last", "all"]),
+                         "page_source": r.choice(["first", "last", "all"])},
                 "headers": [{"text": ["H id", "H c0"]}], "footnote": {"text": ["F note"], "as_table": True},
                 "source": {"text": ["R src"], "as_table": True}, "kind": "single", "strategy": "plain", "header_mode": "explicit"}
-    if k < 0.65:
+    if k < 0.7:
         h = r.choice([2, 2, 3, 4])
         cw = W / 2
         rows = [[sized_text(r, cw, h, f"#{i}#"), r.choice(["a", "b", ""])] for i in range(n)]
@@ -87,8 +90,29 @@ def directed(g):
     return spec
 
 
+def edge_grid():
+    """Deterministic: footnote / source tables under all nine placement pairs, row counts around the page capacity."""
+    out = []
+    for nrow in (5, 7):
+        for pf in ("first", "last", "all"):
+            for ps in ("first", "last", "all"):
+                for n in (nrow - 3, nrow - 2, nrow - 1, 2 * nrow - 5):
+                    rows = [[f"#{i}#", "a"] for i in range(n)]
+                    out.append({"df": {"cols": ["id", "c0"], "rows": rows}, "body": {},
+                                "page": {"nrow": nrow, "col_width": 6.0, "page_footnote": pf, "page_source": ps},
+                                "headers": [{"text": ["H id", "H c0"]}], "footnote": {"text": ["F note"], "as_table": True},
+                                "source": {"text": ["R src"], "as_table": True}, "kind": "single", "strategy": "plain",
+                                "header_mode": "explicit"})
+    return out
+
+
+_GRID = edge_grid()
+
+
 def generate(g, i):
     r = g.r
+    if i < len(_GRID):
+        return _GRID[i]
     if r.random() < 0.2:
         return directed(g)
     strategy = r.choice(["plain", "plain", "page_by", "page_by", "subline", "subline+page_by"])
@@ -128,5 +152,5 @@ def signature(spec, result):
 
 def run(ctx):
     common.TIE_EXCUSES["value"] = True
-    return common.run_docprop(ctx, "c03", generate, signature, extra_fn=extra_fn, n_quick=200, n_thorough=4000,
+    return common.run_docprop(ctx, "c03", generate, signature, extra_fn=extra_fn, n_quick=270, n_thorough=4000,
                               shrink_steps=120)
